@@ -1199,7 +1199,15 @@ impl Core {
 		log::info!("Database path: {:?}", opts.path);
 
 		let inner = Arc::new(CoreInner::new(Arc::clone(&opts))?);
+		Self::new_with_inner(Arc::clone(&inner), opts).inspect_err(|_| {
+			// The background tasks may outlive this call: do not keep the directory locked
+			if let Ok(mut lockfile) = inner.lockfile.lock() {
+				let _ = lockfile.release();
+			}
+		})
+	}
 
+	fn new_with_inner(inner: Arc<CoreInner>, opts: Arc<Options>) -> Result<Self> {
 		// Create the write stall controller with the provider and thresholds
 		let thresholds = StallThresholds {
 			memtable_limit: opts.memtable_stall_threshold,
@@ -1474,6 +1482,16 @@ impl Core {
 		);
 
 		Ok(())
+	}
+}
+
+impl Drop for Core {
+	fn drop(&mut self) {
+		// Reached without close() when the last handle is dropped outside a runtime:
+		// release the directory lock (the background tasks are stopped by TaskManager::drop).
+		if let Ok(mut lockfile) = self.inner.lockfile.lock() {
+			let _ = lockfile.release();
+		}
 	}
 }
 
